@@ -5,7 +5,7 @@ Driver for C17. One case =
 
 `(cd (defs (c <id> (bases <id>*) (f <priv 0|1> <idx> <ann>)*)*) (order <id>*) (ops <op>*) …)`
 
-`<ann>` = `int|float|str|bool|datetime | (cls i) | (enum i) | (opt typing|unionNone|noneFirst|pipe a) |
+`<ann>` = `int|float|str|bool|datetime | (cls i) | (enum i) | (sub <builtin> i) | (mix <builtin> i) | (plain i) | (opt typing|unionNone|noneFirst|pipe a) |
 (cont list|set|tuple|sequence|blist|bset|btuple a) | (type a) | (fwd a) | (union a b T|F)`;
 `<op>` = `(q d k) | (acc d c k) | (read d) | (render d T|F) | (copy d) | (sub d T|F)`.
 Further items (`(future b)`, `(mods n)`, `(enums n)`, `(generic id*)`, `(gsub (id arg)*)` = generic bases, `(twin t)` = further same-named diagrams, `(final b)` = order in which the accessors are read at the end) only steer how the harness renders the Python source.
@@ -24,6 +24,10 @@ def current : Quirks := Quirks.current
 `model…=` field: the comparison must not accept the repaired defect as admissible behaviour -/
 def beforeFix : Quirks := { current with pipeNotOptional := true, argZero := true }
 
+def parseBuiltin : String → Option Builtin
+  | "int" => some .int | "float" => some .float | "str" => some .str | "bool" => some .bool
+  | "datetime" => some .datetime | _ => none
+
 partial def parseAnn : Sexp → Option Ann
   | .atom "int" => some (.builtin .int)
   | .atom "float" => some (.builtin .float)
@@ -32,6 +36,9 @@ partial def parseAnn : Sexp → Option Ann
   | .atom "datetime" => some (.builtin .datetime)
   | .list [.atom "cls", i] => i.asNat?.map .cls
   | .list [.atom "enum", i] => i.asNat?.map .enum
+  | .list [.atom "sub", .atom b, i] => do pure (.ext (.sub (← parseBuiltin b)) (← i.asNat?))
+  | .list [.atom "mix", .atom b, i] => do pure (.ext (.mixEnum (← parseBuiltin b)) (← i.asNat?))
+  | .list [.atom "plain", i] => do pure (.ext .plain (← i.asNat?))
   | .list [.atom "opt", .atom st, a] => do
     let st ← (match st with
       | "typing" => some OptStyle.typing | "unionNone" => some .unionNone
@@ -81,9 +88,12 @@ def parseOp : Sexp → Option Op
 def cname (i : Nat) : String := s!"C{i}"
 def fname (f : FName) : String := (if f.priv then "_f" else "f") ++ toString f.idx
 
+def builtinName : Builtin → String
+  | .int => "int" | .float => "float" | .str => "str" | .bool => "bool" | .datetime => "datetime"
+
 def leafName : Leaf → String
-  | .builtin .int => "int" | .builtin .float => "float" | .builtin .str => "str" | .builtin .bool => "bool"
-  | .builtin .datetime => "datetime" | .noneType => "None" | .cls i => cname i | .enum i => s!"E{i}" | .other => "?"
+  | .builtin b => builtinName b | .noneType => "None" | .cls i => cname i | .enum i => s!"E{i}" | .other => "?"
+  | .ext (.sub b) i => s!"S{builtinName b}{i}" | .ext (.mixEnum b) i => s!"M{builtinName b}{i}" | .ext .plain i => s!"P{i}"
 
 def bit (b : Bool) : String := if b then "1" else "0"
 def tri : Tri → String | .t => "1" | .f => "0" | .err => "E"
